@@ -94,6 +94,7 @@ Fixpoint b_loop (v : variant) (fuel : nat) (s : list Z) (off : Z) : result T :=
               | SErr => stop Failed
               | SPanic => stop Crashed
               | SOut => stop OutOfModel
+              | SHang => stop Hung
               end
           | _ => stop Failed
           end
@@ -111,6 +112,7 @@ Definition b_scan (v : variant) (s : list Z) : result T :=
         | SErr => stop Failed
         | SPanic => stop Crashed
         | SOut => stop OutOfModel
+        | SHang => stop Hung
         end in
       match ty with
       | TyHeader =>
@@ -119,6 +121,7 @@ Definition b_scan (v : variant) (s : list Z) : result T :=
           | SErr => stop Failed
           | SPanic => stop Crashed
           | SOut => stop OutOfModel
+          | SHang => stop Hung
           end
       | TyData => as_data
       | TyOther => if v_first_other_is_data v then as_data else stop Failed
